@@ -7,6 +7,7 @@ create_server / serve captured; no socket is opened).
 import io
 
 from vf.e1 import harness, untraced
+from vf import flags as _flags
 from vf import detloop
 
 from bumble import core, hci
@@ -340,3 +341,6 @@ def new_client_framed_from_first_byte(cut: int, b0: int, b1: int, e0: int, e1: i
         c2.connection_made(_FakeTransport())
         c2.data_received(good)
         return sink.packets == [good]
+
+
+_flags.int_format_placeholder = True     # log f-strings with symbolic ints are not the subject here (see vf/flags.py)
